@@ -177,6 +177,33 @@ def classes():
         def propagate(self):
             self.pad.put(self.a.get() * self.k - self.off)
 
+    class FloatPut(py4hw.Logic):
+        """user-style combinational block that computes with true division / averages: r = a / k (a Python float)"""
+
+        def __init__(self, parent, name, a, r, k=2):
+            super().__init__(parent, name)
+            self.a = self.addIn('a', a)
+            self.r = self.addOut('r', r)
+            self.k = k
+
+        def propagate(self):
+            self.r.put(self.a.get() / self.k)
+
+    class FloatPrepare(py4hw.Logic):
+        """user-style clocked block: r <= (a + state) / k  (a Python float)"""
+
+        def __init__(self, parent, name, a, r, k=2):
+            super().__init__(parent, name)
+            self.a = self.addIn('a', a)
+            self.r = self.addOut('r', r)
+            self.k = k
+            self.state = 1
+
+        def clock(self):
+            self.state += 1
+            self.r.prepare((self.a.get() + self.state) / self.k)
+
+    _CLS.update(FloatPut=FloatPut, FloatPrepare=FloatPrepare)
     _CLS.update(Box=Box, PutReg=PutReg, DoublePrepare=DoublePrepare, DoublePut=DoublePut, PadPrepare=PadPrepare, PadPut=PadPut, Moore=Moore)
     return _CLS
 
@@ -368,6 +395,10 @@ NATIVE = {
                        lambda p, par, n, a, k, s: p.AddCarryIn(par, n, a['a'], a['b'], a['r'], a['ci'])),
     'SubBorrowInWide': (('a', 'b', 'ci'), ('r',), False, True,
                         lambda p, par, n, a, k, s: p.SubBorrowIn(par, n, a['a'], a['b'], a['r'], a['ci'])),
+    'FloatPut': (('a',), ('r',), False, True,
+                 lambda p, par, n, a, k, s: classes()['FloatPut'](par, n, a['a'], a['r'], k=k.get('k', 2))),
+    'FloatPrepare': (('a',), ('r',), True, False,
+                     lambda p, par, n, a, k, s: classes()['FloatPrepare'](par, n, a['a'], a['r'], k=k.get('k', 2))),
     'AbsLeaf': (('a',), ('r',), False, True, _abs_leaf),
     'AbsGroup': (('a',), ('r',), False, True, _abs_group),
     'AbsClocked': (('a',), ('r',), True, False, _abs_clocked),
